@@ -3,7 +3,7 @@ Judge main loop.  Input: one line per operation, `<op> <args…> => <harness out
 Output: one line per input line: `ok`, `skip <why>` or `FAIL <explanation>`.
 A first line `cfg => asm 64 …` (the harness's own report) sets the word size.
 -/
-import JediVerif.Driver.Judge2
+import JediVerif.Driver.Judge3
 
 namespace Jedi.Driver
 
@@ -25,8 +25,22 @@ def judgeLine (cfg : Cfg) (op : String) (args out : List String) : Except String
       if let some o := stripPrefix? op "f2_" then if ← judgeTower towerQ2 o out then return true
       if let some o := stripPrefix? op "f6_" then if ← judgeTower towerQ6 o out then return true
       if let some o := stripPrefix? op "f12_" then if ← judgeTower towerQ12 o out then return true
-      if let some o := stripPrefix? op "g1_" then if ← judgeCurve curveG1 o out then return true
-      if let some o := stripPrefix? op "g2_" then if ← judgeCurve curveG2 o out then return true
+      if ← judgeMisc op out then return true
+      if op == "enc" || op == "dec" || op == "fromx" then
+        let g ← next
+        if g == "g1" then return (← judgeEnc curveG1 Impl.opsFq g1Cofactor g op out)
+        else return (← judgeEnc curveG2 Impl.opsFq2 g2Cofactor g op out)
+      if op == "g1_hash" then return (← judgeEnc curveG1 Impl.opsFq g1Cofactor "g1" "hash" out)
+      if op == "g2_hash" then return (← judgeEnc curveG2 Impl.opsFq2 g2Cofactor "g2" "hash" out)
+      if op == "id_hash" then return (← judgeEnc curveG1 Impl.opsFq g1Cofactor "g1" "id_hash" out)
+      if op == "g1_rand" then return (← judgeEnc curveG1 Impl.opsFq g1Cofactor "g1" "rand" out)
+      if op == "g2_rand" then return (← judgeEnc curveG2 Impl.opsFq2 g2Cofactor "g2" "rand" out)
+      if let some o := stripPrefix? op "g1_" then
+        if ← judgeCurve curveG1 o out then return true
+        if ← judgeScalar curveG1 o out then return true
+      if let some o := stripPrefix? op "g2_" then
+        if ← judgeCurve curveG2 o out then return true
+        if ← judgeScalar curveG2 o out then return true
       pure false
   run.run' args
 
